@@ -329,6 +329,13 @@ def execute(ck, harness, model, lines, hist):
     if rc != 0 or len(mo) != len(ml):
         raise vv.BuildError("model driver failed: rc=%s %s" % (rc, merr[:500]))
     mout = dict(zip(idx, mo))
+    # seed-driven mode: the model gets the case line only (its seed) and produces the draws itself through the modelled
+    # engine + libstdc++ distributions; it must arrive at the same individual AND at the same draws as the real run
+    sl = [lines[i] + " | SEED" for i in idx]
+    rc, so, serr = vv.run_lines(model, "\n".join(sl) + "\n") if sl else (0, [], "")
+    if rc != 0 or len(so) != len(sl):
+        raise vv.BuildError("model driver (seeded mode) failed: rc=%s %s" % (rc, serr[:500]))
+    sout = dict(zip(idx, so))
     for i, (l, ho) in enumerate(zip(lines, hout)):
         ck.count()
         op = l.split()[0]
@@ -354,6 +361,18 @@ def execute(ck, harness, model, lines, hist):
         mrest = m[m.index("rest") + 1] if "rest" in m else None
         if [x for x in res if x != "INVALID"] != mres or mrest != "0":
             ck.add_diff({"line": l, "draws": ho.split("|", 1)[1][:400]}, mout.get(i), ho.split("|")[0].strip())
+        s = sout.get(i)
+        if s is not None:
+            ck.count()
+            hist["seeded"] = hist.get("seeded", 0) + 1
+            sres, _, strace = s.partition("|")
+            sw = sres.split()
+            sw = sw[:sw.index("rest")] if "rest" in sw else sw
+            if [x for x in res if x != "INVALID"] != sw or strace.split() != ho.split("|", 1)[1].split():
+                ck.add_diff({"line": l, "mode": "seeded"}, s[:600], ho[:600],
+                            what="run from the seed through the modelled engine and distributions: individual or draws differ")
+            else:
+                ck.coverage["draws_predicted_from_seed"] = ck.coverage.get("draws_predicted_from_seed", 0) + len(strace.split())
         if ck.evaluations % 97 == 1:
             ck.sample({"case": l[:160], "impl": ho[:260], "model": (mout.get(i) or "")[:200]})
     return hout
@@ -364,6 +383,7 @@ def run(ck):
     res = vv.prove("Properties_C17", vv.FLOCQ_AXIOMS)
     ck.add_proof(res)
     ck.add_proof(vv.prove("Refuted_C17", vv.FLOCQ_AXIOMS))
+    ck.add_proof(vv.prove("Seeded_C17", vv.FLOCQ_AXIOMS))
     ck.trusted += ["coq/Ga/GaDefs.v is a hand-written model of i_ga.cc / i_de.cc / primitive.h / set_older_age (tie: correspondence only)",
                    "coq/Base/F64.v (Flocq binary64) as the meaning of C++ double +, -, * (no FMA contraction on x86-64 without -mfma)",
                    "extraction: ExtrOcamlBasic only, no Extract Constant; ocaml/ga_driver.ml + zutil.ml",
